@@ -35,7 +35,7 @@ fn reduced_alphabet(p: Proto) -> Alphabet {
         keys: a.keys.into_iter().take(2).collect(),
         seeds: a.seeds.into_iter().enumerate().filter(|(i, _)| *i == 0 || *i == 2).map(|(_, s)| s).collect(),
         lengths: vec![0, 17, 65],
-        classes: 3,
+        classes: domains::MSG_CLASSES,
         footers: a.footers.into_iter().take(3).collect(),
         assertions: a.assertions.into_iter().take(3).collect(),
     }
